@@ -9,9 +9,14 @@
    others  : (ops cmp <gt|ge|lt|le> <a> <b> <how> <method>)    replies (bts (L (T T:<t> true|false)*)) | (flag true|false)
              (ops mm <min|max> <a> <b> <how> <method>)           a, b: operand or list of operands; replies as `bin`
              (ops pow <a> <b> <how> <method>)                    exponents NaN or non-negative integers, else bad-op
-   replies : ... | (df (T (L T:<t>*) (D (<hexname> (L Q:<num>/<den> | F:nan ...))*))) -/
+   replies : ... | (df (T (L T:<t>*) (D (<hexname> (L Q:<num>/<den> | F:nan ...))*)))
+   frames, other operators (column policies ij|oj|lj|rj, also for binf):
+             (ops powf <a> <b> <how> <method> <ch>)              a, b: foperand; exponents NaN or non-negative integers, else bad-op
+             (ops cmpf <gt|ge|lt|le> <a> <b> <how> <method> <ch>) replies (bts ..) | (flag ..) | (bdf (T (L T:<t>*) (D (<hexname> (L true|false ...))*)))
+             (ops mmf <min|max> <a> <b> <how> <method> <ch>)      a, b: foperand or list of foperands (no one-column frames); columns sorted -/
 import PygModel.OpsF
 import PygModel.OpsX
+import PygModel.OpsFX
 import PygModel.AlignDriver
 
 namespace Pyg.OpsDriver
@@ -98,6 +103,10 @@ def colHowOf2 : Sexp → Option ColHow
   | .atom "ij" => some .ij | .atom "oj" => some .oj
   | _ => Option.none
 
+def colHowOf4 : Sexp → Option ColHow
+  | .atom "ij" => some .ij | .atom "oj" => some .oj | .atom "lj" => some .lj | .atom "rj" => some .rj
+  | _ => Option.none
+
 def cmpOf : Sexp → Option Cmp
   | .atom "gt" => some .gt | .atom "ge" => some .ge | .atom "lt" => some .lt | .atom "le" => some .le
   | _ => Option.none
@@ -109,6 +118,15 @@ def mmOf : Sexp → Option MM
 def boperandStr : BOperand → String
   | .ts idx vals => "(bts (L" ++ String.join ((idx.zip vals).map fun p => s!" (T T:{p.1} {p.2})") ++ "))"
   | .flag b => s!"(flag {b})"
+
+def boolStr (v : Option Rat) : String := if v == some 1 then "true" else "false"
+
+/-- a comparison result: bool cells travel as 1 / 0 inside the model -/
+def bfoperandStr : FOperand → String
+  | .ts s => "(bts (L" ++ String.join ((s.idx.zip s.vals).map fun p => s!" (T T:{p.1} {boolStr p.2})") ++ "))"
+  | .num q => s!"(flag {boolStr q})"
+  | .df f => "(bdf (T (L" ++ String.join (f.idx.map fun t => s!" T:{t}") ++ ") (D" ++
+      String.join (f.cols.map fun c => " (" ++ hexEncode c.1 ++ " (L" ++ String.join (c.2.map fun v => " " ++ boolStr v) ++ "))") ++ ")))"
 
 abbrev St := Unit
 def init : St := ()
@@ -138,10 +156,26 @@ def handle1 (op : String) (args : List Sexp) : Option String := do
       let a ← operandOf a; let b ← operandOf b; let how ← howOf how; let m ← dirOf m
       if powDomain b then pure ("ok " ++ operandStr (powop how m a b)) else Option.none
   | "binf", [o, a, b, how, m, ch] =>
-      let o ← opOf o; let as ← foperandsOf a; let bs ← foperandsOf b; let how ← howOf how; let m ← dirOf m; let ch ← colHowOf2 ch
+      let o ← opOf o; let as ← foperandsOf a; let bs ← foperandsOf b; let how ← howOf how; let m ← dirOf m; let ch ← colHowOf4 ch
       match opListF o how m ch as bs with
       | some r => pure ("ok " ++ foperandStr r)
       | Option.none => pure "ok N"
+  | "powf", [a, b, how, m, ch] =>
+      let a ← foperandOf a; let b ← foperandOf b; let how ← howOf how; let m ← dirOf m; let ch ← colHowOf4 ch
+      if powDomainF b then pure ("ok " ++ foperandStr (powF how m ch a b)) else Option.none
+  | "cmpf", [c, a, b, how, m, ch] =>
+      let c ← cmpOf c; let a ← foperandOf a; let b ← foperandOf b; let how ← howOf how; let m ← dirOf m; let ch ← colHowOf4 ch
+      pure ("ok " ++ bfoperandStr (cmpF c how m ch a b))
+  | "mmf", [k, a, b, how, m, ch] =>
+      let k ← mmOf k; let as ← foperandsOf a; let bs ← foperandsOf b; let how ← howOf how; let m ← dirOf m; let ch ← colHowOf4 ch
+      let ok := (as ++ bs).all fun x => match x with
+        | .df f => f.cols.length > 1
+        | _ => true
+      if !ok then Option.none                                   -- one-column frames: not modelled
+      else if mmRaises ch (as ++ bs) then pure "err ValueError"
+      else match mmListF k how m ch as bs with
+        | some r => pure ("ok " ++ foperandStr r)
+        | Option.none => pure "ok N"
   | "aggf", [g, xs, how, m, ch] =>
       let g ← aggOf g; let xs ← foperandsOf xs; let how ← howOf how; let m ← dirOf m; let ch ← colHowOf2 ch
       let ok := xs.all fun x => match x with
